@@ -70,7 +70,7 @@ Inductive looped (x : ectx) (local_rid : N) (cid : option N) (attrs : list attr)
                looped x local_rid cid attrs
 | LoopOriginator : forall a, find_code ORIGINATOR_ID attrs = Some a -> a_data a = DVal local_rid ->
                    looped x local_rid cid attrs
-| LoopCluster : forall a c ids, cid = Some c -> c < 4294967296 -> Forall (fun i => i < 4294967296) ids ->
+| LoopCluster : forall a c ids, cid = Some c ->
                 find_code CLUSTER_LIST attrs = Some a -> binary a = Some (cluster_list_bytes ids) -> In c ids ->
                 looped x local_rid cid attrs.
 
@@ -141,3 +141,34 @@ Fixpoint view_after (ops : list sinkop) (d pid : N) (v : option (list attr)) : o
   | Unreach d' p' :: t => view_after t d pid (if (d' =? d) && (p' =? pid) then None else v)
   | Reach d' p' _ a _ :: t => view_after t d pid (if (d' =? d) && (p' =? pid) then Some a else v)
   end.
+
+(* ------------------------------------------------------------ attribute sets the wire decoder produces *)
+(* the codes bgp.rs recognises (Attribute::canonical_flags is defined on them) *)
+Definition recognised (c : N) : bool :=
+  existsb (N.eqb c) [1; 2; 3; 4; 5; 6; 7; 8; 9; 10; 14; 15; 16; 17; 18; 23; 26; 29; 32; 40].
+
+(* what the UPDATE decoder guarantees about an attribute vector (packet/src/bgp.rs,
+   property C03/C05): unrecognised optional attributes are the only opaque ones,
+   an AS_PATH is a well-formed segment list, a COMMUNITY value is a list of
+   4-octet communities *)
+Definition decodable (attrs : list attr) : Prop :=
+  (forall a, In a attrs -> is_opaque a = true -> recognised (a_code a) = false)
+  /\ (forall a, In a attrs -> a_code a = AS_PATH -> exists segs, is_path a segs)
+  /\ (forall a, In a attrs -> a_code a = COMMUNITY ->
+        exists b, a_data a = DBin b /\ Nat.modulo (length b) 4 = O).
+
+(* an export policy whose set-actions keep attribute vectors decodable *)
+Definition policy_keeps_decodable (pol : policy_fn) : Prop :=
+  forall s a nh onh a' nh', decodable a -> pol s a nh onh = Some (a', nh') -> decodable a'.
+
+(* AS numbers are u32 in PeerExportContext *)
+Definition wf_ctx (x : ectx) : Prop := x_lasn x < 4294967296 /\ x_confed x < 4294967296.
+
+(* RFC 4271 5: an unrecognised optional transitive attribute is passed on with
+   the Partial bit set, an unrecognised optional non-transitive one is dropped:
+   every unknown transitive attribute of the route is sent (same code and value,
+   Partial added), and every unknown attribute that is sent is one of those *)
+Definition unknown_rule_ok (inp out : list attr) : Prop :=
+  (forall a, In a inp -> unknown_attr a -> transitive a -> exists b, In b out /\ same_but_partial a b)
+  /\ (forall b, In b out -> unknown_attr b ->
+        partial_set b /\ exists a, In a inp /\ unknown_attr a /\ transitive a /\ same_but_partial a b).
